@@ -503,7 +503,3 @@ static void byz_run(const Plan *p, RunResult *r)
 
 const Scenario g_scn_byz = { "byz", "C06", 16, byz_gen, byz_run };
 
-/* placeholder so that main.c's table stays simple until the http scenario exists */
-static void http_gen(Plan *p, uint64_t a, uint64_t b, int t) { (void)a; (void)b; (void)t; plan_init(p, "http"); }
-static void http_run(const Plan *p, RunResult *r) { (void)p; r->twin_failed = 1; }
-const Scenario g_scn_http = { "http", "C06", 1, http_gen, http_run };
